@@ -204,6 +204,41 @@ impl StripModel {
         Err(first_err.unwrap_or_else(|| format!("output has {} surplus byte(s) {:02x?}", output.len() - pos, &output[pos..output.len().min(pos + 16)])))
     }
 
+    /// Is `output` what the model allows for SOME prefix of `input` (one pass; used after a failed write, where how
+    /// far the stream got is unspecified)?
+    pub fn output_of_some_prefix(&self, input: &[u8], output: &[u8]) -> bool {
+        if output.iter().any(|&b| FORBIDDEN(b)) {
+            return false;
+        }
+        let mut cands: Vec<(StripModel, usize)> = vec![(*self, 0)];
+        if output.is_empty() {
+            return true;
+        }
+        for &b in input {
+            let mut next: Vec<(StripModel, usize)> = Vec::with_capacity(cands.len() + 1);
+            for &(m, pos) in &cands {
+                if output.get(pos) == Some(&b) {
+                    let mut m2 = m;
+                    if m2.step(b, true).is_ok() && !next.contains(&(m2, pos + 1)) {
+                        next.push((m2, pos + 1));
+                    }
+                }
+                let mut m2 = m;
+                if m2.step(b, false).is_ok() && !next.contains(&(m2, pos)) {
+                    next.push((m2, pos));
+                }
+            }
+            cands = next;
+            if cands.iter().any(|c| c.1 == output.len()) {
+                return true;
+            }
+            if cands.is_empty() {
+                return false;
+            }
+        }
+        false
+    }
+
     /// The strictly expected output for input that is known to be well-formed
     /// UTF-8 (every MAYBE resolves to KEEP): returns None if a MAYBE byte does not.
     pub fn expected_exact(&mut self, input: &[u8]) -> Vec<u8> {
@@ -225,6 +260,26 @@ impl StripModel {
 #[cfg(test)]
 mod tests {
     use super::*;
+    #[test]
+    fn some_prefix_equals_brute_force() {
+        // every input of <= 5 symbols, every sub-sequence of it as the claimed output
+        let syms = [b'a', 0x1b, b'[', b'm', 0xc3, 0xa9, 0x0a];
+        let mut n = 0u32;
+        for len in 0..=5usize {
+            for i in 0..(syms.len() as u32).pow(len as u32) {
+                let mut k = i;
+                let input: Vec<u8> = (0..len).map(|_| { let b = syms[(k % syms.len() as u32) as usize]; k /= syms.len() as u32; b }).collect();
+                for mask in 0u32..(1 << len) {
+                    let output: Vec<u8> = (0..len).filter(|j| mask & (1 << j) != 0).map(|j| input[j]).collect();
+                    let brute = (0..=len).any(|p| StripModel::default().check_output(&input[..p], &output).is_ok());
+                    let fast = StripModel::default().output_of_some_prefix(&input, &output);
+                    assert_eq!(brute, fast, "input {input:02x?} output {output:02x?}");
+                    n += 1;
+                }
+            }
+        }
+        assert!(n > 500_000);
+    }
     #[test]
     fn basic() {
         let mut m = StripModel::default();
